@@ -606,7 +606,61 @@ func (w *world) roundTrip(t *rt.Tape, res *core.Result, smp *sample) *core.Failu
 	if err != nil || !bytes.Equal(again, data) {
 		return &core.Failure{Clause: "rewrite-differs", Detail: fmt.Sprintf("writing the parsed circuit again gives different bytes (%d vs %d, err=%v)", len(again), len(data), err)}
 	}
+	// The parsed circuit belongs to the caller, who may do with it what it likes (one case in
+	// three: it edits names, types - element types included - and gates in place). Parsing the
+	// same file afterwards must give the circuit that is in the file.
+	if t.Choose(rt.SGen, 3) == 0 {
+		scribble(got)
+		pr2 := safeParse(format, stored, rmode, k)
+		res.Reach["roundtrip.parsed-again-after-the-caller-edited-the-first-result"]++
+		switch {
+		case pr2.hung || pr2.panicV != nil || pr2.err != nil || pr2.allocNo:
+			return &core.Failure{Clause: "roundtrip-parse-error", Detail: fmt.Sprintf("after the caller edited the circuit it got from the first parse, the same %s file does not parse back: err=%v panic=%v", smp.Format, pr2.err, pr2.panicV)}
+		case pr2.circ.NumGates != c.NumGates || pr2.circ.NumWires != c.NumWires || !gatesEqual(pr2.circ.Gates, c.Gates):
+			return &core.Failure{Clause: "roundtrip-differs", Detail: "after the caller edited the circuit it got from the first parse, a second parse of the same file gives other gates or counts"}
+		}
+		names := format == 0
+		if a, b := sigString(pr2.circ.Inputs, names)+"->"+sigString(pr2.circ.Outputs, names), sigString(c.Inputs, names)+"->"+sigString(c.Outputs, names); a != b {
+			return &core.Failure{Clause: "roundtrip-differs", Detail: fmt.Sprintf("after the caller edited the circuit it got from the first parse, a second parse of the same file gives another I/O signature:\n got %s\nwant %s", a, b)}
+		}
+		if again2, err := marshal(pr2.circ, format); err != nil || !bytes.Equal(again2, data) {
+			return &core.Failure{Clause: "rewrite-differs", Detail: "after the caller edited the circuit it got from the first parse, the second parse of the same file re-marshals to other bytes"}
+		}
+	}
 	return nil
+}
+
+// scribble edits a circuit the way a caller that owns it may: in place, through every pointer.
+func scribble(c *circuit.Circuit) {
+	var rec func(io circuit.IO)
+	var typ func(t *types.Info, depth int)
+	typ = func(t *types.Info, depth int) {
+		if t == nil || depth > 8 {
+			return
+		}
+		t.Bits += 7
+		t.MinBits += 3
+		t.ArraySize += 2
+		t.IsConcrete = !t.IsConcrete
+		typ(t.ElementType, depth+1)
+		for i := range t.Struct {
+			t.Struct[i].Name += "~"
+			typ(&t.Struct[i].Type, depth+1)
+		}
+	}
+	rec = func(io circuit.IO) {
+		for i := range io {
+			io[i].Name += "~edited"
+			typ(&io[i].Type, 0)
+			rec(io[i].Compound)
+		}
+	}
+	rec(c.Inputs)
+	rec(c.Outputs)
+	for i := range c.Gates {
+		c.Gates[i].Input0, c.Gates[i].Input1, c.Gates[i].Output = 0, 0, 0
+	}
+	c.NumGates, c.NumWires = 0, 0
 }
 
 // concurrent: one process reads several circuit files at the same time (a server loading
